@@ -31,15 +31,31 @@ SINGLE = {
         "`rec type A = | X type B = | Y in e` written on one line is printed as `| Xtype B =`: line breaks between the bindings of a group are copied from the source",
     "fmt-output-unparseable:at-IntLiteral..Identifier":
         "a block comment that starts with `/*/` is cut after three bytes (CommentIter uses find(\"*/\") from offset 0, the tokenizer skips the opening `*`): the rest of the comment is printed as code",
-    "fmt-ast-changed:at-Equals..Forall":
-        "`type Fn = forall a . a -> a`: the explicit `forall` of a type alias is not printed",
-    "fmt-ast-changed:at-Let..LParen":
-        "a `/** doc */` block documentation comment is printed twice (once as documentation, once as an ordinary comment found by CommentIter), which doubles its content",
+    "fmt-output-unparseable:out@Identifier..Identifier":
+        "a `type` declaration whose parameter list does not fit on one line is broken at column 0 (`type LongName first_parameter\\nsecond_parameter ...`), which ends the declaration for the layout algorithm",
+    "fmt-ast-changed:Forall->Function@Forall":
+        "an explicit `forall` in front of a function type (`type Fn = forall a . a -> a`, record fields, annotations) is not printed",
+    "fmt-ast-changed:Type->Hole@LParen":
+        "`type App (f : Type -> Type) (a : Type) = ..`: a kind annotation that is exactly `Type` is not printed (pretty_print.rs prints kinds other than Type/Hole only)",
+    "fmt-ast-changed:App->Function@LParen":
+        "`(->) a Bool` (the function type constructor applied prefix) is printed as `a -> Bool`, which parses to a Function node instead of an application",
+    "fmt-ast-changed:Ident@Operator":
+        "an operator chain whose operators have no fixity declaration (`a + b * c - d` without `#[infix]`) and that is too long for one line is printed with the operators rotated: reparse_infix reports UndefinedFixity but format_expr formats the half re-associated tree",
+    "fmt-not-idempotent:Identifier..Operator":
+        "same input: each further pass rotates the operators of the undeclared-fixity chain again",
 }
 
 
 def alt(xs):
     return "(" + "|".join(re.escape(x) for x in sorted(xs)) + ")"
+
+
+def normalise(k):
+    """Sweeps made before the tree-change keys were shortened: `X@at-Prev..Tok` -> `X@Tok`."""
+    if k.startswith("fmt-ast-changed:") and "@at-" in k:
+        head, at = k.split("@at-", 1)
+        return head + "@" + at.split("..")[-1]
+    return k
 
 
 def load_union(sweep_dir):
@@ -54,8 +70,54 @@ def load_union(sweep_dir):
         for k, n in d["failures_by_key"].items():
             if k.startswith("fmt-refused") or k.startswith("machinery"):
                 continue
+            k = normalise(k)
             union[k] = union.get(k, 0) + n
     return union, runs
+
+
+def unescape_alternatives(regex):
+    """Inverse of `re.escape(prefix) + ":" + alt(suffixes)`: the exact keys a line of ours lists."""
+    def unesc(x):
+        return re.sub(r"\\(.)", r"\1", x)
+    i = regex.index(":(")
+    prefix = unesc(regex[:i])
+    body = regex[i + 2:-1]
+    # alternatives are separated by unescaped `|`
+    alts, cur, k = [], "", 0
+    while k < len(body):
+        if body[k] == "\\" and k + 1 < len(body):
+            cur += body[k:k + 2]
+            k += 2
+        elif body[k] == "|":
+            alts.append(cur)
+            cur = ""
+            k += 1
+        else:
+            cur += body[k]
+            k += 1
+    alts.append(cur)
+    return [prefix + ":" + unesc(a) for a in alts]
+
+
+def existing_keys():
+    """Keys already listed for C10 in KNOWN_FINDINGS.txt (they were observed failing by earlier sweeps)."""
+    keys = []
+    path = os.path.join(VERIF, "KNOWN_FINDINGS.txt")
+    for line in open(path):
+        s = line.strip()
+        if not s.startswith("{"):
+            continue
+        try:
+            d = json.loads(s)
+        except Exception:
+            continue
+        if d.get("property") != "C10":
+            continue
+        if d.get("key"):
+            keys.append(d["key"])
+        elif d.get("key_regex"):
+            keys.extend(unescape_alternatives(d["key_regex"]))
+    return keys
 
 
 def lines_for(union):
@@ -90,7 +152,8 @@ def lines_for(union):
             what = ("the formatted text does not parse: first source token that is missing (at-..) or place of the parse error in the output (out@..); "
                     "a comment or line break after `type T =`, `do`, `(` moves the following token out of its block")
         elif g[0] == "fmt-ast-changed":
-            what = "the formatted text parses to a different tree at this construct (`////` lines re-rendered as documentation comments, doubled block documentation comments)"
+            what = ("the formatted text parses to a different tree; key = constructors at which the trees start to differ @ first source token the output lacks "
+                    "(`////` lines re-rendered as documentation comments, `/** doc */` block documentation comments printed twice, comments inside type annotations)")
         elif g[0] == "fmt-literal-changed":
             what = "a literal differs in the formatted text (consequence of the one-line `rec type` gluing)"
         else:
@@ -103,6 +166,12 @@ def lines_for(union):
 def main():
     sweep = sys.argv[1]
     union, runs = load_union(sweep)
+    if "--merge-existing" in sys.argv:
+        # keep what earlier sweeps found; `--drop PREFIX` leaves out a class whose key format changed
+        drops = [sys.argv[i + 1] for i, a in enumerate(sys.argv) if a == "--drop" and i + 1 < len(sys.argv)]
+        for k in existing_keys():
+            if not any(k.startswith(d) for d in drops):
+                union.setdefault(k, 0)
     lines = lines_for(union)
     # self-check: every key is matched by exactly the line built for it
     for k in union:
